@@ -810,6 +810,9 @@ int dispatch_printed_messages(const char* messages,
 
                     ok = (*dispatcher)(messagebuf);
                     //printf("%s, %s, %d -> %s\n", messagebuf, portname, nargs, ok ? "yes": "no");
+
+                    if(!nargs) // nothing to iterate over, dispatched once
+                        break;
                 }
             }
         }
